@@ -1,6 +1,7 @@
 //! Correspondence harness: generates cases per suite, runs the implementation in /repo
 //! on each (panics captured), prints "input ; output" lines in the flat number format.
 mod common;
+mod suite01;
 mod suite07;
 
 use common::Rng;
@@ -9,6 +10,9 @@ use std::panic;
 
 fn exec(suite: u32, input: &[u64]) -> Vec<u64> {
     let r = panic::catch_unwind(|| match suite {
+        10 => suite01::exec10(input),
+        20 | 30 => suite01::exec20(input),
+        40 => suite01::exec40(input),
         70 => suite07::exec(input),
         _ => vec![998],
     });
@@ -45,7 +49,13 @@ fn main() {
                         let line = line.unwrap();
                         let inp: Vec<u64> = line.split(';').next().unwrap().split_whitespace()
                             .filter_map(|t| t.parse().ok()).collect();
+                        let mut inp = inp;
                         if inp.is_empty() { continue; }
+                        if matches!(suite, 10 | 20 | 30) && inp.len() >= 3 {
+                            // corpus entries carry the decoder policy of the build they are run on
+                            let pol = suite01::probe_policy();
+                            inp[..3].copy_from_slice(&pol);
+                        }
                         let out = exec(suite, &inp);
                         writeln!(w, "{} ; {}", fmt(&inp), fmt(&out)).unwrap();
                     }
@@ -56,6 +66,9 @@ fn main() {
                 writeln!(w, "{} ; {}", fmt(&inp), fmt(&out)).unwrap();
             };
             match suite {
+                10 => suite01::gen10(tier, &mut rng, &mut emit),
+                20 | 30 => suite01::gen20(tier, &mut rng, &mut emit),
+                40 => suite01::gen40(tier, &mut rng, &mut emit),
                 70 => suite07::gen(tier, &mut rng, &mut emit),
                 _ => {}
             }
